@@ -69,3 +69,11 @@ package stdlib_contracts
 //@ assumed
 //@ pure
 //@ ensures (len(result) == 0 || fresh(result)) && len(result) == len(s) && forall(i, 0, len(s), result[i] == s[i])
+
+// Binary search reads its arguments only; the position it reports is within the slice when found
+// (what it finds is up to the comparison function and the order of the slice).
+//@ package slices
+//@ func BinarySearchFunc[*]
+//@ assumed
+//@ pure
+//@ ensures 0 <= result0 && result0 <= len(x) && (result1 ==> result0 < len(x))
